@@ -427,3 +427,23 @@ def multichar_pushpop_family():
         tr = tuple(sorted(fixed + [t for i, t in enumerate(moves) if i != drop]))
         yield idx, ('pda', 5, k, g, tr, 0, 8)
         idx += 1
+
+
+def double_noop_family():
+    """Thin family (wave 6): three states, two letters, two stack symbols.  Core: s0 -e,e->e s1 together with
+    s0 -e,x->x s1 (two different moves with the same effect when x is on top).  Plus every choice of four moves from a
+    menu of sixteen pushes / pops / no-ops / replaces, F = one state.  A closure computation that queues the same
+    successor twice needs more iterations than the closure has configurations."""
+    n, k, g = 3, 2, 2
+    E, X = k, g
+    core = [(0, E, X, 1, X), (0, E, 0, 1, 0)]
+    menu = [(0, 0, X, 0, 0), (0, 1, X, 0, 1), (0, 0, X, 1, 0), (1, 0, X, 1, 0),
+            (1, E, 0, 0, X), (1, E, 1, 2, X), (1, E, 0, 1, X), (1, E, 0, 2, X), (1, E, 1, 0, X),
+            (1, 0, 0, 1, X), (1, 1, 1, 2, X),
+            (1, E, X, 2, X), (2, E, X, 0, X), (0, 1, X, 2, X),
+            (1, E, 1, 1, 0), (0, E, 1, 1, 1)]
+    idx = 0
+    for extra in itertools.combinations(menu, 4):
+        for f in range(n):
+            yield idx, ('pda', n, k, g, tuple(sorted(core + list(extra))), 0, 1 << f)
+            idx += 1
